@@ -32,7 +32,7 @@ SIMPLE_KINDS = [
     'vallist', 'valdict', 'valcall', 'valawait', 'valsemi', 'valtuple_ml', 'valbytes', 'printblank',
     'tstr_blank', 'tstr_col0_dq', 'classdeco', 'tryfinally', 'forelse_print', 'genexpr', 'comment_after',
     'stdout_ref', 'stdout_write_bound', 'tstr_trailing_ws', 'print_inline_directive', 'val_after_inline_directive',
-    'val_with_inline_directive',
+    'val_with_inline_directive', 'print_indented',
 ]
 
 
@@ -48,6 +48,9 @@ def make_group(k, kind):
         L = ["print('o{}', {})".format(k, t)]
     elif kind == 'print2':
         L = ["print('o{0}a\\no{0}b', {1})".format(k, t)]
+    elif kind == 'print_indented':
+        # every line of the output starts with blanks of its own (centred text, a table with a margin)
+        L = ["print('    i{0}a\\n      i{0}b', {1})".format(k, t)]
     elif kind == 'printblank':
         L = ["print('p{0}a\\n\\np{0}b', {1})".format(k, t)]
     elif kind == 'mlist':
